@@ -211,7 +211,7 @@ def sets(ctx):
             if isinstance(par, ast.Compare):
                 ok = True
             elif isinstance(par, ast.BinOp) and isinstance(par.op, (ast.Sub, ast.BitOr, ast.BitAnd, ast.BitXor)):
-                ok = True
+                ok = True      # the enclosing BinOp is itself a set expression and is judged at its own consumer
             elif isinstance(par, ast.Attribute) and par.attr in ("difference", "issubset", "issuperset", "union", "intersection", "add",
                                                                   "update", "discard", "isdisjoint", "symmetric_difference"):
                 ok = True
@@ -244,7 +244,17 @@ def sets(ctx):
 
 
 def _is_set_expr(n):
-    return isinstance(n, (ast.Set, ast.SetComp)) or (isinstance(n, ast.Call) and norm(n.func) in ("set", "frozenset"))
+    if isinstance(n, (ast.Set, ast.SetComp)) or (isinstance(n, ast.Call) and norm(n.func) in ("set", "frozenset")):
+        return True
+    # set algebra: a - b, a | b, a & b, a ^ b with a set (or dict keys view) operand; .difference() etc. of a set
+    if isinstance(n, ast.BinOp) and isinstance(n.op, (ast.Sub, ast.BitOr, ast.BitAnd, ast.BitXor)):
+        def setlike(e):
+            return _is_set_expr(e) or (isinstance(e, ast.Call) and isinstance(e.func, ast.Attribute) and e.func.attr == "keys")
+        return _is_set_expr(n.left) or _is_set_expr(n.right) or (setlike(n.left) and setlike(n.right))
+    if isinstance(n, ast.Call) and isinstance(n.func, ast.Attribute) and n.func.attr in (
+            "difference", "union", "intersection", "symmetric_difference") and _is_set_expr(n.func.value):
+        return True
+    return False
 
 
 def parallel(ctx):
